@@ -33,7 +33,7 @@ def mlw_continuations(case):
 ENGINES = {
     "mlw": {"continuations": mlw_continuations},
     "fmt": {},
-    "queue": {"liveness_marker": "T"},
+    "queue": {"liveness_marker": "T", "shards": 8},
     "sock": {},
     "holder": {},
     "macros": {},
